@@ -85,7 +85,7 @@ def check(ctx: Ctx) -> list[RuleResult]:
     out.append(r2)
 
     # ---- R3 -------------------------------------------------------------------------
-    r3 = RuleResult("R3", "loop-body isolation in the line-reading loops", "no exception can leave one iteration (hence none can abort the rest of a log / a multi-line read)", min_instances=3)
+    r3 = RuleResult("R3", "loop-body isolation in the line-reading loops", "no exception can leave one iteration (hence none can abort the rest of a log / a multi-line read)", min_instances=2)
     loops = []
     for qn in ("ramses_tx.transport.FileTransport._reader", "ramses_tx.transport.PortTransport._read_ready"):
         f = repo.func(qn)
